@@ -18,6 +18,146 @@ import Mathlib.Tactic.NormNum
 
 namespace AITB.Exp
 
+/-! ## §1 list helpers -/
+
+theorem length_setQ (l : List Rat) (k : Nat) (v : Rat) : (setQ l k v).length = l.length := by
+  induction l generalizing k with
+  | nil => rfl
+  | cons x xs ih => cases k <;> simp [setQ, ih]
+
+theorem nthQ_setQ (l : List Rat) (k i : Nat) (v : Rat) :
+    nthQ (setQ l k v) i = if k = i ∧ k < l.length then v else nthQ l i := by
+  induction l generalizing k i with
+  | nil => simp [setQ, nthQ]
+  | cons x xs ih =>
+    cases k with
+    | zero => cases i <;> simp [setQ, nthQ]
+    | succ k =>
+      cases i with
+      | zero => simp [setQ, nthQ]
+      | succ i => simp [setQ, nthQ, ih]
+
+theorem nthQ_map_div (l : List Rat) (c : Rat) (i : Nat) :
+    nthQ (l.map (fun x => x / c)) i = nthQ l i / c := by
+  induction l generalizing i with
+  | nil => simp [nthQ]
+  | cons x xs ih => cases i <;> simp [nthQ, ih]
+
+theorem nthQ_map_cast (l : List Nat) (n : Rat) (i : Nat) :
+    nthQ (l.map (fun (c : Nat) => (c : Rat) / n)) i = (nthN l i : Rat) / n := by
+  induction l generalizing i with
+  | nil => simp [nthQ, nthN]
+  | cons x xs ih => cases i <;> simp [nthQ, nthN, ih]
+
+theorem length_bump (l : List Nat) (k : Nat) : (bump l k).length = l.length := by
+  induction l generalizing k with
+  | nil => rfl
+  | cons x xs ih => cases k <;> simp [bump, ih]
+
+theorem nthN_bump (l : List Nat) (k i : Nat) :
+    nthN (bump l k) i = nthN l i + (if k = i ∧ k < l.length then 1 else 0) := by
+  induction l generalizing k i with
+  | nil => simp [bump, nthN]
+  | cons x xs ih =>
+    cases k with
+    | zero => cases i <;> simp [bump, nthN]
+    | succ k =>
+      cases i with
+      | zero => simp [bump, nthN]
+      | succ i => simp [bump, nthN, ih]
+
+theorem nthN_map_zero (l : List Nat) (i : Nat) : nthN (l.map (fun _ => 0)) i = 0 := by
+  induction l generalizing i with
+  | nil => rfl
+  | cons x xs ih =>
+    cases i with
+    | zero => rfl
+    | succ i => simpa only [List.map, nthN] using ih i
+
+theorem nthN_replicate_zero (w i : Nat) : nthN (List.replicate w 0) i = 0 := by
+  induction w generalizing i with
+  | zero => rfl
+  | succ w ih => cases i <;> simp [List.replicate, nthN, ih]
+
+theorem length_zeros (w : Nat) : (zeros w).length = w := by
+  induction w with
+  | zero => rfl
+  | succ w ih => simp [zeros, ih]
+
+theorem nthQ_zeros (w i : Nat) : nthQ (zeros w) i = 0 := by
+  induction w generalizing i with
+  | zero => rfl
+  | succ w ih => cases i <;> simp [zeros, nthQ, ih]
+
+theorem length_unitFrom (k w j : Nat) : (unitFrom k w j).length = w := by
+  induction w generalizing j with
+  | zero => rfl
+  | succ w ih => simp [unitFrom, ih]
+
+theorem nthQ_unitFrom (k w j i : Nat) :
+    nthQ (unitFrom k w j) i = if i < w ∧ j + i = k then 1 else 0 := by
+  induction w generalizing j i with
+  | zero => simp [unitFrom, nthQ]
+  | succ w ih =>
+    cases i with
+    | zero => simp [unitFrom, nthQ]
+    | succ i =>
+      simp only [unitFrom, nthQ, ih]
+      have : j + 1 + i = j + (i + 1) := by omega
+      simp [this]
+
+theorem length_unit (w k : Nat) : (unit w k).length = w := length_unitFrom k w 0
+
+theorem nthQ_unit (w k i : Nat) : nthQ (unit w k) i = if i < w ∧ i = k then 1 else 0 := by
+  simp [unit, nthQ_unitFrom]
+
+/-- two rows of the same length with the same entries are the same row -/
+theorem row_ext (a b : List Rat) (hl : a.length = b.length) (h : ∀ i, i < a.length → nthQ a i = nthQ b i) : a = b := by
+  induction a generalizing b with
+  | nil => cases b with
+    | nil => rfl
+    | cons y ys => simp at hl
+  | cons x xs ih =>
+    cases b with
+    | nil => simp at hl
+    | cons y ys =>
+      have h0 := h 0 (by simp)
+      simp only [nthQ] at h0
+      have := ih ys (by simpa using hl) (fun i hi => by
+        have := h (i+1) (by simpa using hi)
+        simpa [nthQ] using this)
+      rw [h0, this]
+
+theorem sumR_append (a b : List (Nat × Rat)) : sumR (a ++ b) = sumR a + sumR b := by
+  induction a with
+  | nil => simp [sumR]
+  | cons x xs ih => obtain ⟨s, r⟩ := x; simp [sumR, ih]; ring
+
+theorem countS1_append (i : Nat) (a b : List (Nat × Rat)) : countS1 i (a ++ b) = countS1 i a + countS1 i b := by
+  induction a with
+  | nil => simp [countS1]
+  | cons x xs ih => obtain ⟨s, r⟩ := x; simp [countS1, ih]; omega
+
+/-- Σ r² of the records -/
+def sumSq : List (Nat × Rat) → Rat
+  | [] => 0
+  | (_, r) :: t => r * r + sumSq t
+
+theorem sumSq_append (a b : List (Nat × Rat)) : sumSq (a ++ b) = sumSq a + sumSq b := by
+  induction a with
+  | nil => simp [sumSq]
+  | cons x xs ih => obtain ⟨s, r⟩ := x; simp [sumSq, ih]; ring
+
+/-- Σ (r − m)² = Σ r² − 2 m Σ r + n m² -/
+theorem sqdev_expand (l : List (Nat × Rat)) (m : Rat) :
+    sumQ (l.map (fun x => (x.2 - m) * (x.2 - m))) = sumSq l - 2 * m * sumR l + (l.length : Rat) * m ^ 2 := by
+  induction l with
+  | nil => simp [sumQ, sumSq, sumR]
+  | cons x xs ih =>
+    obtain ⟨s, r⟩ := x
+    simp only [List.map_cons, sumQ, sumSq, sumR, List.length_cons, ih, Nat.cast_add, Nat.cast_one]
+    ring
+
 /-! ## §2 Welford cell -/
 
 /-- division-free invariant of the Welford update, one step -/
@@ -30,5 +170,147 @@ theorem Cell.record_step (w : Cell) (x sx sq : Rat)
   constructor
   · field_simp; linarith
   · rw [h2]; field_simp; ring
+
+
+/-- Welford over a whole list of rewards, from any state satisfying the invariant -/
+theorem Cell.foldl_record_inv (xs : List Rat) (w : Cell) (sx sq : Rat)
+    (h1 : (w.n : Rat) * w.mean = sx) (h2 : w.m2 = sq - w.n * w.mean ^ 2) :
+    (xs.foldl Cell.record w).n = w.n + xs.length ∧
+    (((xs.foldl Cell.record w).n : Nat) : Rat) * (xs.foldl Cell.record w).mean = sx + xs.sum ∧
+    (xs.foldl Cell.record w).m2 = (sq + (xs.map (fun x => x * x)).sum)
+        - (xs.foldl Cell.record w).n * (xs.foldl Cell.record w).mean ^ 2 := by
+  induction xs generalizing w sx sq with
+  | nil => simp [h1, h2]
+  | cons x xs ih =>
+    simp only [List.foldl_cons, List.length_cons, List.sum_cons, List.map_cons]
+    obtain ⟨h1', h2'⟩ := Cell.record_step w x sx sq h1 h2
+    obtain ⟨a, b, c⟩ := ih (w.record x) (sx + x) (sq + x * x) h1' h2'
+    refine ⟨?_, ?_, ?_⟩
+    · rw [a]; simp [Cell.record]; omega
+    · rw [b]; ring
+    · rw [c]; ring
+
+/-- **welford_exact**: after recording the rewards `xs` into a fresh cell: the count is the number
+    of records, `n·mean = Σx` and `M2 = Σx² − n·mean²` -/
+theorem welford_exact (xs : List Rat) :
+    let r := xs.foldl Cell.record Cell.init
+    r.n = xs.length ∧ (r.n : Rat) * r.mean = xs.sum ∧
+    r.m2 = (xs.map (fun x => x * x)).sum - r.n * r.mean ^ 2 := by
+  have := Cell.foldl_record_inv xs Cell.init 0 0 (by simp [Cell.init]) (by simp [Cell.init])
+  simpa [Cell.init] using this
+
+example : (([1, 2, 6] : List Rat).foldl Cell.record Cell.init) = ⟨3, 3, 14⟩ := by  -- test on literals
+  norm_num [List.foldl, Cell.record, Cell.init]
+
+
+/-! ## §3 the experience part of a pair mirrors the recorded data -/
+
+section frame
+variable (cfg : Cfg) (p : Pair)
+
+@[simp] theorem fullSync_cell : (p.fullSync cfg).cell = p.cell := by unfold Pair.fullSync; split <;> rfl
+@[simp] theorem fullSync_cnt : (p.fullSync cfg).cnt = p.cnt := by unfold Pair.fullSync; split <;> rfl
+@[simp] theorem fullSync_dfl : (p.fullSync cfg).dfl = p.dfl := by unfold Pair.fullSync; split <;> rfl
+@[simp] theorem fullSync_idx : (p.fullSync cfg).idx = p.idx := by unfold Pair.fullSync; split <;> rfl
+
+@[simp] theorem incSync_cell (s1 : Nat) : (p.incSync cfg s1).cell = p.cell := by
+  unfold Pair.incSync; dsimp only; split_ifs <;> simp
+@[simp] theorem incSync_cnt (s1 : Nat) : (p.incSync cfg s1).cnt = p.cnt := by
+  unfold Pair.incSync; dsimp only; split_ifs <;> simp
+@[simp] theorem incSync_dfl (s1 : Nat) : (p.incSync cfg s1).dfl = p.dfl := by
+  unfold Pair.incSync; dsimp only; split_ifs <;> simp
+@[simp] theorem incSync_idx (s1 : Nat) : (p.incSync cfg s1).idx = p.idx := by
+  unfold Pair.incSync; dsimp only; split_ifs <;> simp
+
+@[simp] theorem ctor_cell (b : Bool) : (p.ctor cfg b).cell = p.cell := by
+  unfold Pair.ctor; dsimp only; split_ifs <;> simp
+@[simp] theorem ctor_cnt (b : Bool) : (p.ctor cfg b).cnt = p.cnt := by
+  unfold Pair.ctor; dsimp only; split_ifs <;> simp
+@[simp] theorem ctor_dfl (b : Bool) : (p.ctor cfg b).dfl = p.dfl := by
+  unfold Pair.ctor; dsimp only; split_ifs <;> simp
+@[simp] theorem ctor_idx (b : Bool) : (p.ctor cfg b).idx = p.idx := by
+  unfold Pair.ctor; dsimp only; split_ifs <;> simp
+end frame
+
+/-- the experience part of pair `p` is exactly what the records `recs` (those since the last
+    `reset`) say: count, `n·mean = Σr`, `M2 = Σr² − n·mean²`, per-next-state counts -/
+structure ExpOK (w : Nat) (p : Pair) (recs : List (Nat × Rat)) : Prop where
+  len : p.cnt.length = w
+  n : p.cell.n = recs.length
+  mean : (p.cell.n : Rat) * p.cell.mean = sumR recs
+  m2 : p.cell.m2 = sumSq recs - p.cell.n * p.cell.mean ^ 2
+  cnt : ∀ i, i < w → nthN p.cnt i = countS1 i recs
+  mean0 : recs = [] → p.cell.mean = 0
+
+theorem ExpOK.init (w dfl idx : Nat) : ExpOK w (Pair.init w dfl idx) [] := by
+  constructor <;> simp [Pair.init, Cell.init, sumR, sumSq, countS1, nthN_replicate_zero]
+
+/-- every local operation keeps the experience part equal to the recorded data -/
+theorem ExpOK.step (cfg : Cfg) (w : Nat) (p : Pair) (g : Ghost) (op : LOp)
+    (h : ExpOK w p g.recs) : ExpOK w (p.step cfg op) (g.step op).recs := by
+  cases op with
+  | record s1 r =>
+    obtain ⟨hm, hq⟩ := Cell.record_step p.cell r (sumR g.recs) (sumSq g.recs) h.mean h.m2
+    refine ⟨?_, ?_, ?_, ?_, ?_, by simp [Ghost.step]⟩
+    · simp [Pair.step, length_bump, h.len]
+    · simp [Pair.step, Ghost.step, Cell.record, h.n]
+    · simp only [Pair.step, Ghost.step, sumR_append, sumR]; rw [hm]; ring
+    · simp only [Pair.step, Ghost.step, sumSq_append, sumSq]; rw [hq]; ring
+    · intro i hi
+      simp only [Pair.step, Ghost.step, nthN_bump, countS1_append, countS1, h.cnt i hi, h.len]
+      by_cases e : s1 = i
+      · subst e; simp [hi]
+      · simp [e]
+  | sync => exact ⟨by simpa [Pair.step] using h.len, by simpa [Pair.step, Ghost.step] using h.n,
+      by simpa [Pair.step, Ghost.step] using h.mean, by simpa [Pair.step, Ghost.step] using h.m2,
+      by simpa [Pair.step, Ghost.step] using h.cnt, by simpa [Pair.step, Ghost.step] using h.mean0⟩
+  | syncInc s1 => exact ⟨by simpa [Pair.step] using h.len, by simpa [Pair.step, Ghost.step] using h.n,
+      by simpa [Pair.step, Ghost.step] using h.mean, by simpa [Pair.step, Ghost.step] using h.m2,
+      by simpa [Pair.step, Ghost.step] using h.cnt, by simpa [Pair.step, Ghost.step] using h.mean0⟩
+  | reset =>
+    refine ⟨by simp [Pair.step, h.len], ?_, ?_, ?_, ?_, ?_⟩
+    · simp [Pair.step, Ghost.step, Cell.init]
+    · simp [Pair.step, Ghost.step, Cell.init, sumR]
+    · simp [Pair.step, Ghost.step, Cell.init, sumSq]
+    · intro i _
+      simp only [Pair.step, Ghost.step, countS1]
+      exact nthN_map_zero p.cnt i
+    · simp [Pair.step, Cell.init]
+  | ctor b =>
+    cases b <;> exact ⟨by simpa [Pair.step] using h.len, by simpa [Pair.step, Ghost.step] using h.n,
+      by simpa [Pair.step, Ghost.step] using h.mean, by simpa [Pair.step, Ghost.step] using h.m2,
+      by simpa [Pair.step, Ghost.step] using h.cnt, by simpa [Pair.step, Ghost.step] using h.mean0⟩
+  | nop => simpa [Pair.step, Ghost.step] using h
+
+theorem ExpOK.run (cfg : Cfg) (w : Nat) (h : List LOp) (p : Pair) (g : Ghost)
+    (h0 : ExpOK w p g.recs) : ExpOK w (p.run cfg h) (g.run h).recs := by
+  induction h generalizing p g with
+  | nil => simpa [Pair.run, Ghost.run] using h0
+  | cons op t ih =>
+    simp only [Pair.run, Ghost.run, List.foldl_cons]
+    exact ih _ _ (ExpOK.step cfg w p g op h0)
+
+/-- what `ExpOK` says in the words of the property: visit counts, mean reward and sum of squared
+    deviations are those of the recorded data -/
+theorem ExpOK.spec {w : Nat} {p : Pair} {recs : List (Nat × Rat)} (h : ExpOK w p recs) :
+    p.cell.n = recs.length ∧ p.cell.mean = meanOf recs ∧ p.cell.m2 = sqDevOf recs ∧
+    ∀ i, i < w → nthN p.cnt i = countS1 i recs := by
+  have hm : p.cell.mean = meanOf recs := by
+    unfold meanOf
+    by_cases e : recs = []
+    · simp [e, h.mean0 e]
+    · have hl : (recs.length : Rat) ≠ 0 := by
+        have : recs.length ≠ 0 := by simpa using e
+        exact_mod_cast this
+      have := h.mean
+      rw [h.n] at this
+      simp only [List.isEmpty_iff, e, if_false]
+      field_simp
+      linarith
+  refine ⟨h.n, hm, ?_, h.cnt⟩
+  unfold sqDevOf
+  simp only []
+  rw [sqdev_expand, ← hm, h.m2, ← h.mean, h.n]
+  ring
 
 end AITB.Exp
